@@ -141,7 +141,7 @@ def swap8(b):
 def otfad_read(ctxs, a, cblock, byte_swap=False):
     """One 16-byte fetch at system address a. -> (context index (1-based) or 0, decrypted?, counter-block address field, data)"""
     for i, c in enumerate(ctxs, start=1):
-        if c.hit(a):
+        if c is not None and c.hit(a):
             if not c.ade:
                 return i, False, 0, cblock
             ks = c.keystream(a)
